@@ -162,12 +162,25 @@ def epoch_grid(rep, model):
         if r is None:
             rep.violation('EPOCH-COUNT', centre, site, expected='a list of tables', found='no value is returned')
             continue
-        try:
-            n = T.length(r)
-        except Exception:
-            n = None
+        def extent(t):
+            # the number of elements of a list-valued term: of both alternatives, of the iteration key (never of the per-element body)
+            if t[0] == 'gamma':
+                a_, b_ = extent(t[2]), extent(t[3])
+                return None if a_ is None or b_ is None else (a_ if a_ == b_ else T.gamma(t[1], a_, b_))
+            if t[0] in ('map', 'filtermap'):
+                return T.keylen(t[1])
+            try:
+                return T.length(t)
+            except Exception:
+                return None
+        n = extent(r)
         data = sorted({T.show(x) for x in T.walk(n) if x[0] in ('col', 'nrows') or x == tab}) if n is not None else []
         cond = r[0] == 'filtermap'
+        # a count that is known to vary with the data: the groups / distinct values / selected rows of something computed from the table
+        varying = [x for x in T.walk(n) if x[0] == 'call' and x[1] in ('method.groupby', 'groupby', 'unique', 'count', 'flatnonzero', 'nonzero0', 'method.unique', 'method.nunique')] \
+            if n is not None else []
+        if data and not varying and not cond:
+            n = None          # mentions the table, but not through a construct whose size is known to depend on its content: no verdict
         if n is None:
             rep.ok('EPOCH-COUNT', centre, site, found='extent of the returned list not in a recognised form: not decided here (see C13 PARTITION)', nontrivial=False)
         elif data or cond:
